@@ -33,7 +33,7 @@ ASSUMPTIONS = [
     "with other keywords, must raise PackageListError",
     "the 'keyword field' of a line is the span from the first to the last keyword token; a rewritten line must equal "
     "original[:field_start] + ' '.join(new keywords) + original[field_end:]",
-    "suggestion functions never return sentinels or '#' tokens",
+    "suggestion functions never return sentinels or '#' tokens; each `*` line is compared with what the function answers for that line's own atom",
 ]
 BOUNDS = {
     "quick": "366 line shapes (12 keyword configurations x 5 spacing styles x 6 comment styles incl. comments followed by blanks/tab, + 6 "
@@ -101,6 +101,36 @@ def _join(lines, eols):
 TRI_EOLS = [("\n", "\n", ""), ("\r\n", "\n", "\r\n")]
 
 
+# Specs that name the same cat/pkg(-ver) and differ only in operator, slot or sub-slot, with what the atom-dependent
+# suggestion function "byatom" answers for each (spelled out per token, so the reference needs no atom parser).
+ATOM_TABLE = {
+    "dev-lang/python:3.11": ("alpha",),
+    "dev-lang/python:3.12": ("ia64",),
+    "dev-lang/python:3.12/3": ("ia64", "mips"),
+    "dev-lang/python": (),
+    "dev-libs/a-1": ("arm",),
+    "=dev-libs/a-1": ("arm",),
+    ">=dev-libs/a-1": ("hppa",),
+    "~dev-libs/a-1": ("sparc",),
+    "dev-libs/a-1:2": ("arm", "ppc"),
+    "<dev-libs/a-1": (),
+}
+ATOM_TOKENS = list(ATOM_TABLE)
+ATOM_LINES = [t + k for t in ATOM_TOKENS for k in (" *", "\t^", "  amd64 *  # c ")]
+
+
+def _atomdep_texts(i):
+    """line i first, then every other line (so both orders occur over the blocks), then `*`,`*`,`^` / `*`,`^`,`*` triples"""
+    a = ATOM_LINES[i]
+    out = [a + "\n" + b for b in ATOM_LINES]
+    if a.endswith(" *"):
+        for t in ATOM_TOKENS:
+            for u in ATOM_TOKENS:
+                out.append(a + "\n" + t + " *\r\n" + u + " ^")
+            out.append(a + "\n" + t + " ^\n" + ATOM_TOKENS[(i + 1) % len(ATOM_TOKENS)] + " *\n")
+    return out
+
+
 def blocks(tier):
     """Cheap descriptors of disjoint slices of the enumeration, simplest first; block_texts() expands one."""
     shapes = line_shapes(tier)
@@ -112,6 +142,7 @@ def blocks(tier):
     if tier != "quick":
         nred = len(reduced_shapes())
         out += [("tri3", i, j) for i in range(nred) for j in range(nred)]
+    out += [("atomdep", i) for i in range(len(ATOM_LINES))]
     return out
 
 
@@ -148,6 +179,8 @@ def block_texts(tier, blk):
         for j, kb in enumerate(KWCONF):
             for bl in (BLANKS[0], BLANKS[2], BLANKS[3]):
                 out.append(_join((_line(i, KWCONF[i], 0, 0), bl, _line(j + 1, kb, 2, 1)), ("\n", "\r\n", "\n")))
+    elif kind == "atomdep":
+        out = _atomdep_texts(blk[1])
     else:
         a, b = red[blk[1]], red[blk[2]]
         for c in red:
@@ -217,6 +250,14 @@ def suggest_fn(name):
         return lambda pkg: ("arm", "hppa")
     if name == "three":
         return lambda pkg: ["alpha", "arm", "hppa"]
+    if name == "byatom":
+        # depends on operator, slot and sub-slot of the atom it is asked about, not only on cat/pkg-ver
+        def byatom(pkg):
+            ops = {"=": ("arm",), ">=": ("hppa",), "~": ("sparc",)}.get(pkg.op, ())
+            slots = {"3.11": ("alpha",), "3.12": ("ia64",), "2": ("ppc",)}.get(pkg.slot, ())
+            return ops + slots + (("mips",) if pkg.subslot == "3" else ())
+
+        return byatom
     table = {"dev-libs/a": (), "dev-libs/b": ("arm",), "dev-libs/c": ("arm", "hppa"), "dev-libs/d": ("sparc",), "dev-libs/e": ()}
     return lambda pkg: table[str(pkg.key)]
 
@@ -231,6 +272,8 @@ def ref_suggest(name, spec_token):
         return ("arm", "hppa")
     if name == "three":
         return ("alpha", "arm", "hppa")
+    if name == "byatom":
+        return ATOM_TABLE[spec_token]
     for key, val in (("dev-libs/a", ()), ("dev-libs/b", ("arm",)), ("dev-libs/c", ("arm", "hppa")), ("dev-libs/d", ("sparc",)), ("dev-libs/e", ())):
         if key in spec_token:
             return val
@@ -444,8 +487,8 @@ def work(task):
                 viol.append({"kind": "build", "entries": ents, "msg": msgs[0]})
         return {"evals": evals, "classes": classes, "viol": viol, "samples": [{"build": build_entries(tier)[idx + 1]}]}
     n = NTASKS[tier]
-    mine = [t for j, blk in enumerate(blocks(tier)) if j % n == idx for t in block_texts(tier, blk)]
-    for text in mine:
+    mine = [(t, blk[0] == "atomdep") for j, blk in enumerate(blocks(tier)) if j % n == idx for t in block_texts(tier, blk)]
+    for text, atomdep in mine:
         sc = sentinel_class(text)
         evals += 1
         msgs = check_parse(text)
@@ -458,10 +501,10 @@ def work(task):
         cls(f"with_keywords:{'bad' if msgs else 'ok'}")
         if msgs:
             viol.append({"kind": "with_keywords", "text": text, "msg": msgs[0]})
-        for sname in _snames(tier):
+        for sname in ("byatom", "one") if atomdep else _snames(tier):
             evals += 1
             outcome, msgs = check_expand(text, sname)
-            cls(f"expand:{sc}:{'nosug' if sname == 'none' else 'sug'}:{outcome}")
+            cls(f"expand:{sc}:{'nosug' if sname == 'none' else 'atomsug' if sname == 'byatom' else 'sug'}:{outcome}")
             if msgs:
                 viol.append({"kind": "expand", "text": text, "suggest": sname, "msg": msgs[0]})
         if len(samples) < 2 and sc not in ("plain",) and len(text) > 20:
